@@ -108,6 +108,13 @@ func BuildArena(dst string) error {
 			os.Symlink("real", "/w/alias")
 		}
 	}
+	if d == "/w/dstlink" || strings.HasPrefix(d, "/w/dstlink/") {
+		// the destination itself is a symlink to a directory
+		os.MkdirAll("/w/dstreal", 0o755)
+		if _, err := os.Lstat("/w/dstlink"); err != nil {
+			os.Symlink("dstreal", "/w/dstlink")
+		}
+	}
 	steps := []error{
 		mk("/w"), mk("/tmp"), mk("/cwd"), mk(d),
 		wr(d+"-evil/keep", "OUT-evil-keep"),
@@ -297,7 +304,7 @@ func Run(sc *uw.Scenario) *simkit.Outcome {
 		}
 
 		// ---- C04: every link under dst resolves inside dst ----
-		tree := ListTree(dstClean)
+		tree := ListTree(realDst)
 		var tpaths []string
 		for p := range tree {
 			tpaths = append(tpaths, p)
